@@ -48,7 +48,7 @@ func run(c *hc.Ctx) {
 		P := c.GenPolygon(class, &pool, closeAll)
 		if c.Chance(0.5) {
 			// several contours sharing vertices: overlaps, nesting, opposite orientations
-			P = P.Append(c.GenPolygon([]int{0, 1, 2, 3}[c.Intn(4)], &pool, closeAll))
+			P = P.Append(c.GenPolygon([]int{0, 1, 2, 3, 4}[c.Intn(5)], &pool, closeAll))
 		}
 		fp := P.Flatten(canvas.Tolerance)
 		cp, ok := hc.Contours(fp)
@@ -60,7 +60,17 @@ func run(c *hc.Ctx) {
 		for rule := 0; rule < 4; rule++ {
 			c.Evals++
 			var R *canvas.Path
-			if msg := hc.Try(func() { R = P.Copy().Settle(canvas.FillRule(rule)) }); msg != "" {
+			viaPaths := c.Chance(0.3) // the Paths entry point, with the compound path as one element
+			if viaPaths {
+				c.Count("entry:Paths.Settle")
+			}
+			if msg := hc.Try(func() {
+				if viaPaths {
+					R = canvas.Paths{P.Copy()}.Settle(canvas.FillRule(rule))
+				} else {
+					R = P.Copy().Settle(canvas.FillRule(rule))
+				}
+			}); msg != "" {
 				first := strings.SplitN(msg, "\n", 2)[0]
 				c.Fail("panic:settle:"+first, "Settle panicked: "+first, map[string]any{"rule": ruleNames[rule], "P": P.String()})
 				continue
